@@ -261,4 +261,9 @@ def run(cx, tier='quick'):
     from .c13 import include_own_parsers as _iop
     from ..facts import Facts as _Fp
     _iop(cx, _Fp(cx), rep, ['::debug::', '::partial_eq::', '::hash::', '::clone::', '::default::'])
+    # the impl headers of this trait's own templates (generics, where-clause, ::core trait path): HDR
+    from .c12 import check_headers as _chk_hdr
+    _chk_hdr(cx, rep, ['::debug::', '::partial_eq::', '::hash::', '::clone::', '::default::'])
+    from .own import include_generic_rules as _igr
+    _igr(cx, rep, ['::debug::', '::partial_eq::', '::hash::', '::clone::', '::default::'])
     return rep
